@@ -1,6 +1,6 @@
 #!/bin/sh
 # usage: tools/allchecks.sh <seed> [tier]  -- runs every property's check on the current tree, prints rc and violation counts
-SEED=${1:-1}; TIER=${2:-quick}
+SEED=${1:-20260929}; TIER=${2:-quick}
 cd /verif
 for i in 01 02 03 04 05 06 07 08 09 10 11 12 13 14 15 16 17 18 19 20; do
   VERIF_SEED=$SEED ./vcheck C$i --tier $TIER > /tmp/all_${SEED}_C$i.out 2>&1; rc=$?
